@@ -390,6 +390,25 @@ def h_tiny_values(E, idx):
     return 'value'
 
 
+CONJ_CASES = [('ctrans([1+2*i, 3-i])', [1 - 2j, 3 + 1j]), ('adj([1+2*i, 3-i])', [1 - 2j, 3 + 1j]), ('adj(2+5*i)', 2 - 5j), ('ctrans(2+5*i)', 2 - 5j), ('ctrans([[1+i, 2],[3*i, 4]])', [[1 - 1j, -3j], [2, 4]]),
+              ('adj([[1+i, 2],[3*i, 4]])', [[1 - 1j, -3j], [2, 4]]), ('trans([1+2*i, 3-i])', [1 + 2j, 3 - 1j]), ('trans([[1+i, 2],[3*i, 4]])', [[1 + 1j, 3j], [2, 4]]),
+              ('conj([1+2*i, 3-i])', [1 - 2j, 3 + 1j]), ('ctrans([[1+i, 2, 3*i]])', [[1 - 1j], [2], [-3j]]), ('re([1+2*i, 3-i])', [1, 3]), ('im([[1+2*i],[3-i]])', [[2], [-1]]),
+              ('norm([3*i, 4])', 5.0), ('abs([3*i, 4])', 5.0), ('trace([[i, 2],[3, 1-i]])', 1 + 0j), ('det([[i, 0],[0, i]])', -1 + 0j)]
+
+
+def h_conj_cases(E, idx):
+    """concrete companion with COMPLEX entries (the symbolic arrays of array_funcs are real, where conjugation is invisible): conjugate transposes conjugate
+    vectors and scalars too, plain transposes do not, re / im / norm / trace / det take complex arrays"""
+    from mitxgraders import MatrixGrader
+    from mitxgraders.helpers.calc.expressions import evaluator, DEFAULT_SUFFIXES, DEFAULT_VARIABLES
+    expr, want = CONJ_CASES[idx]
+    got, _ = evaluator(expr, dict(DEFAULT_VARIABLES), MatrixGrader.default_functions, DEFAULT_SUFFIXES, max_array_dim=2)
+    w = np.asarray(want, dtype=complex)
+    g_ = np.asarray(got, dtype=complex)
+    E.check('complex-array-function-value', g_.shape == w.shape and bool(np.allclose(g_, w, rtol=1e-12, atol=1e-12)))
+    return 'ok'
+
+
 SHAPES = [(), (1,), (2,), (3,), (1, 1), (1, 3), (2, 2), (2, 3), (3, 3), (1, 1, 1), (2, 2, 2), (3, 3, 3), (2, 2, 2, 2)]
 
 
@@ -467,6 +486,8 @@ def harnesses(tier):
     for name in sorted(ELEMENTWISE_FUNCTIONS):
         if name not in ('factorial', 'fact'):
             add(h_carrier, 'carrier', dict(f=name), 'argument 2, 1, -2, 0, 3 carried as int / numpy int / numpy float / literal / kronecker sum / direct call', validate=False)
+    for i in range(len(CONJ_CASES)):
+        add(h_conj_cases, 'conj_cases', dict(i=i), CONJ_CASES[i][0], validate=False)
     for i in range(len(TINY_VALUES)):
         add(h_tiny_values, 'tiny_values', dict(i=i), TINY_VALUES[i][0], validate=False)
     for i in range(len(REAL_ONLY)):
